@@ -260,7 +260,12 @@ def check_assembly(case, ctx):
     dsb = (pkg.lam_h(case['p1']) + pkg.lam_h(case['p2'])) / 2.
     Kref = _embed2(ref_conn(kind, pd1, pd2, kt, kr if kr is not None else 0., pos1, pos2, dsb), pd1.ndof, pd2.ndof,
                    p1.row_start, p2.row_start, size)
-    ctx.close(name, K, Kref, TOL, bucket=name + ('' if case['p1_first'] else '.p1-after-p2'))
+    floor = 0.
+    if pos1 is not None:
+        axis = 'y' if kind in ('SSycte', 'BFycte') else 'x'
+        (a0, a1), (b0, b1) = _eval_abs(pd1, axis, pos1), _eval_abs(pd2, axis, pos2)
+        floor = 50 * 2.2e-16 * (pd1.a if axis == 'y' else pd1.b) * (kt * (a0 + b0) ** 2 + (kr or 0.) * (a1 + b1) ** 2)   # see check_kernel
+    ctx.close(name, K, Kref, TOL, bucket=name + ('' if case['p1_first'] else '.p1-after-p2'), atol=floor)
     ctx.close(name + '.symmetry', K, K.T, 1e-13, bucket=name + '.symmetry')
     # penalty constants: symmetric in the two panels, degree one in the moduli
     with package('calc_kt_kr'):
